@@ -12,9 +12,13 @@ import FordModel.Lemmas.TypeSpec
 import FordModel.Lemmas.TypeSpecChar
 import FordModel.Generated.C01TypeSpec
 import FordModel.Lemmas.DeclList
+import FordModel.Lemmas.TypeSpecProto
 import FordModel.Mask
 import FordModel.MaskSpec
 import FordModel.Lemmas.Mask
+import FordModel.Attribs
+import FordModel.AttribsSpec
+import FordModel.Lemmas.Attribs
 namespace Ford.C01
 open Ford.Parse
 
@@ -424,5 +428,124 @@ example :
     (declVarsOpt false "real(kind=dp), intent(in) :: alpha, beta_2, g".toList).toOption
       = some [⟨"alpha".toList, [], false, none⟩, ⟨"beta_2".toList, [], false, none⟩, ⟨"g".toList, [], false, none⟩] := by
   decide
+
+/-! ### attributes: several entities per declaration x separate attribute statements (`process_attribs`) -/
+
+open Ford.Attribs in
+/-- **Every attribute reaches exactly the entities it is given for.**  For every specification part - any number
+    of type declaration statements with any number of entities and any attribute lists, any number of attribute
+    statements of any keyword (`target :: u`, `dimension v(3), w(:)`, `intent(in) x`, `parameter (n = 3)`, ...)
+    naming any entities, in any order - whose declared names differ pairwise (letter case ignored; not needed in
+    block data) and whose PARAMETER items all have their `=` (`paramsOk`): the unit's variables are exactly the declared
+    entities, once each, in source order, and each one is what ITS OWN declaration says, updated by the texts that
+    the attribute statements file under ITS OWN name, in statement order - nothing else.  In particular what is
+    given for one entity of a declaration line never reaches the other entities of that line.  Holds for every
+    variant `cfg` of the four repairable places. -/
+theorem attributes_reach_exactly_the_named_entities (cfg : Cfg) (bd : Bool) (inh : Str) (stmts : List Stmt)
+    (hok : paramsOk cfg stmts = true)
+    (hd : bd = true ∨ ((declared inh stmts).map fun v => lower v.name).Pairwise (· ≠ ·)) :
+    run cfg bd inh stmts = .ok (dropExternal cfg bd ((declared inh stmts).map fun v =>
+      applyAll cfg (params cfg stmts) v (named cfg stmts (lower v.name)))) :=
+  run_eq cfg bd inh stmts hok hd
+
+open Ford.Attribs in
+/-- **An entity no attribute statement names is documented exactly as declared**, whatever statements name the
+    other entities of its declaration line (or anything else). -/
+theorem unnamed_entity_is_as_declared (cfg : Cfg) (p : List (Str × Str)) (stmts : List Stmt) (v : Var)
+    (hn : named cfg stmts (lower v.name) = []) :
+    applyAll cfg p v (named cfg stmts (lower v.name)) = v := by
+  rw [hn]; rfl
+
+open Ford.Attribs in
+/-- **Attribute statement ≡ attribute on the declaration.**  `T, as :: e` with a later statement `k :: e` is
+    documented exactly as `T, as, k :: e` without that statement - every variable of the unit identical, `e`
+    included - for every plain attribute keyword `k` (`save`, `target`, `volatile`, `asynchronous`, `value`,
+    `external`, `allocatable`, `pointer`, `bind(c)`, ...: `isPlain`), any statements before, between and after
+    (declarations with any number of entities, attribute statements for other entities, later ones for `e` too),
+    as long as no earlier attribute statement names `e` and the declared names differ pairwise. -/
+theorem attribute_statement_equals_attribute_on_declaration (cfg : Cfg) (bd : Bool) (inh : Str)
+    (pre mid post : List Stmt) (as : List Str) (e : Ent) (k : Str)
+    (hk : isPlain cfg k = true) (hn : ∀ c ∈ e.name, isWord c = true)
+    (hd : ((declared inh (pre ++ .decl as [e] :: (mid ++ .attr k e.name :: post))).map
+            fun v => lower v.name).Pairwise (· ≠ ·))
+    (hq : named cfg (pre ++ mid) (lower e.name) = []) :
+    run cfg bd inh (pre ++ .decl as [e] :: (mid ++ .attr k e.name :: post))
+      = run cfg bd inh (pre ++ .decl (as ++ [k]) [e] :: (mid ++ post)) :=
+  stmt_vs_inline cfg bd inh pre mid post as e k (plain_of cfg k hk) hn hd hq
+
+open Ford.Attribs in
+/-- **One declaration statement for several entities ≡ one statement each.**  `T, as :: e1, .., ej, f1, .., fk`
+    is documented exactly as `T, as :: e1, .., ej` followed by `T, as :: f1, .., fk`, in any context: every entity
+    of a line owns its copy of the line's attributes. -/
+theorem one_declaration_or_several (cfg : Cfg) (bd : Bool) (inh : Str) (pre post : List Stmt) (as : List Str)
+    (es fs : List Ent) :
+    run cfg bd inh (pre ++ .decl as (es ++ fs) :: post) = run cfg bd inh (pre ++ .decl as es :: .decl as fs :: post) := by
+  have h1 : declared inh (pre ++ .decl as (es ++ fs) :: post) = declared inh (pre ++ .decl as es :: .decl as fs :: post) := by
+    simp [declared_append, declared_cons, declVars]
+  have h2 : named cfg (pre ++ .decl as (es ++ fs) :: post) = named cfg (pre ++ .decl as es :: .decl as fs :: post) := by
+    funext n; simp [named_append, named_cons, contrib_decl]
+  have h3 : params cfg (pre ++ .decl as (es ++ fs) :: post) = params cfg (pre ++ .decl as es :: .decl as fs :: post) := by
+    simp [params_append, params_cons, paramPairs_decl]
+  have h4 : paramsOk cfg (pre ++ .decl as (es ++ fs) :: post) = paramsOk cfg (pre ++ .decl as es :: .decl as fs :: post) := by
+    simp [paramsOk_append, paramsOk_cons, paramItems_decl]
+  simp only [Attribs.run, h1, h2, h3, h4]
+
+open Ford.Attribs in
+/-- **A PARAMETER item without `=` rejects the file** (`split[1]` raises IndexError; `paramsOk` is constantly
+    true in the repaired variant `cfg.paramJoin`) - the only way this machinery fails. -/
+theorem parameter_item_without_value_rejects (cfg : Cfg) (bd : Bool) (inh : Str) (stmts : List Stmt)
+    (h : paramsOk cfg stmts = false) : run cfg bd inh stmts = .error .indexError := by
+  simp [Attribs.run, h]
+
+open Ford.Attribs Ford.AttribsSpec in
+/-- The statements of the current source that decide the attributes of a variable are the ones
+    `FordModel/Attribs.lean` mirrors (regenerated from the source on every run): every variable owns its attribute
+    list (`self.attribs = copy.copy(attribs)`, `copy.copy(attribs)` per entity in `line_to_variables`), the
+    classification loop, the `ATTRIB_RE` branch, both `process_attribs` loops, the `external` filter and `DIM_RE` -
+    in one of the variants (`Cfg`) of the four repairable places. -/
+theorem attribs_source_as_modelled :
+    Generated.C01.attribsOwner = ownerSrc ∧ Generated.C01.dimReSrc = dimReSrc ∧
+    Generated.C01.attribClassify = classifySrc ∧ Generated.C01.blockDataCleanup = blockDataCleanupSrc ∧
+    (allCfgs.any fun cfg =>
+      Generated.C01.attribStmt == stmtSrc cfg && Generated.C01.processCodeUnit == processCodeUnitSrc cfg
+      && Generated.C01.processBlockData == processBlockDataSrc cfg && Generated.C01.externalFilter == filterSrc cfg) = true := by
+  decide
+
+open Ford.Attribs in
+/-- non-vacuity (the situation of `real, save :: u, v` / `target :: u` / `dimension v(3)`): the hypotheses hold,
+    `u` gets `target`, `v` gets `dimension(3)`, neither gets the other's; the keywords of the equivalence theorem
+    are plain in every variant -/
+example :
+    let cfg : Cfg := ⟨false, false, false, false⟩
+    let stmts : List Stmt :=
+      [.decl [(chars! "save")] [⟨['u'], [], none⟩, ⟨['v'], [], none⟩], .attr (chars! "target") ['u'],
+       .attr (chars! "dimension") (chars! "v(3)")]
+    paramsOk cfg stmts = true ∧
+    (run cfg false (chars! "public") stmts).toOption
+      = some [⟨['u'], [(chars! "save"), (chars! "target")], [], [], false, (chars! "public"), false, none⟩,
+              ⟨['v'], [(chars! "save"), (chars! "dimension(3)")], [], [], false, (chars! "public"), false, none⟩] ∧
+    (AttribsSpec.allCfgs.all fun c =>
+      [(chars! "save"), (chars! "target"), (chars! "volatile"), (chars! "asynchronous"), (chars! "value"),
+       (chars! "external"), (chars! "allocatable"), (chars! "pointer"), (chars! "bind(c)")].all (isPlain c)) = true := by
+  decide
+
+open Ford.TypeSpec in
+/-- **`type(name)` / `class(name)` / `procedure(name)` in any spelling.**  The keyword in any letter case,
+    any runs of blanks around the parentheses and the name: the declared type is the keyword, the
+    prototype is the name as written, nothing is lost to the remainder, and `parse_type` does not fail. -/
+theorem derived_type_spec_spellings (ty : ProtoT) (t w1 w2 n w3 tail : Str) (ht : lower t = ty.kw)
+    (h1 : isPad w1 = true) (h2 : isPad w2 = true) (h3 : isPad w3 = true)
+    (hn : ∀ c ∈ n, isWord c = true) (hne : n ≠ [])
+    (htail : EndsScan tail) (htn : tail.all (fun c => c != '\n') = true) :
+    parseType (t ++ (w1 ++ (('(' :: (w2 ++ n ++ w3) ++ [')']) ++ tail)))
+      = .ok { vartype := ty.kw, rest := strip tail, proto := some (n, []) } :=
+  parse_proto ty t w1 w2 n w3 tail ht h1 h2 h3 hn hne htail htn
+
+open Ford.TypeSpec in
+example :
+    (parseType "TYPE ( vec_t ), intent(in) :: v".toList).toOption
+      = some { vartype := "type".toList, rest := ", intent(in) :: v".toList, proto := some ("vec_t".toList, []) } ∧
+    (parseType "class(shape)::s".toList).toOption
+      = some { vartype := "class".toList, rest := "::s".toList, proto := some ("shape".toList, []) } := by decide
 
 end Ford.C01
